@@ -3,6 +3,7 @@ import LdkModel.Model.Forward
 import LdkModel.Model.ForwardClose
 import LdkModel.Model.ForwardMulti
 import LdkModel.Generated.Blinded
+import LdkModel.Model.RaaBlock
 namespace Ldk.Driver
 open Ldk Ldk.Forward
 
@@ -148,6 +149,29 @@ def c02fwd : Drv where
       let s := st.s
       let settled := s.up != .pending && (s.downRaaUpdate == .durable)
       (st, s!"final up={showUp s.up} settled={if settled then 1 else 0} delta={showInt (deltaWorst st.inAmt st.outAmt s)}")
+    | _ => (st, "bad-op")
+
+structure MultiSt where
+  m : RaaBlock.BlockMap := RaaBlock.BlockMap.empty
+
+/-- two inbound edges, one outbound edge (downstream channel id 1): the state is the blocker map driven by the GENERATED
+    `registerOnFulfil` / `release`; `raa <handed|parked>` / `flush <flies|stays>` validate what the real node did with the
+    downstream `revoke_and_ack` update against the generated `held` (via `RaaBlock.raaParked`): while a blocker of a claim whose
+    preimage update has not completed is registered, the update must not reach chain::Watch -/
+def c02multi : Drv where
+  σ := MultiSt
+  init := {}
+  step := fun st ws =>
+    let ws := ws.filter (fun w => !w.startsWith "@")
+    let blockers := fun (m : RaaBlock.BlockMap) => " ".intercalate ((RaaBlock.BlockMap.get m 1).map toString)
+    match ws with
+    | ["minit"] => ({}, "ok")
+    | ["fulfil", b] => ({ m := RaaBlock.stepEv st.m (.fulfil 1 (nat! b)) }, "ok")
+    | ["rel", b] => ({ m := RaaBlock.stepEv st.m (.release 1 (nat! b)) }, "ok")
+    | ["raa", obs] =>
+      if RaaBlock.raaParked st.m 1 && obs == "handed" then (st, s!"MISMATCH revoke_and_ack update handed to chain::Watch while blockers [{blockers st.m}] are registered") else (st, "ok")
+    | ["flush", obs] =>
+      if RaaBlock.raaParked st.m 1 && obs == "flies" then (st, s!"MISMATCH parked revoke_and_ack update released while blockers [{blockers st.m}] are registered") else (st, "ok")
     | _ => (st, "bad-op")
 
 end Ldk.Driver
